@@ -71,4 +71,3 @@ var gExcluded = []struct {
 	// column types of the DDL: STRING and BYTES must carry a length; a proto/enum type cannot be spelled like them
 	{regexp.MustCompile(`(?i)^(CREATE|ALTER) .*\b(STRING|BYTES)\b *([^( ]|$)`), "STRING / BYTES without a length as a DDL column type (the identifier pool put the word where a proto type name goes)"},
 }
-
